@@ -608,6 +608,15 @@ func (fr *Frame) execInstr(in ssa.Instruction, st *State, reach *Term) (terminat
 		t := i.Type().Underlying().(*types.Pointer).Elem()
 		r := c.alloc(st, fr.fn.Name()+"_"+i.Name(), reach)
 		c.sc.assert(tImp(reach, tEq(tApp(SInt, "dyntype", r), c.typeID(i.Type()))))
+		if at, isArr := t.Underlying().(*types.Array); isArr {
+			if _, ok := sortOf(at.Elem()); ok {
+				// a zeroed array is the constant zero array (canonical, so that copies into it are functions of the source)
+				k, ks, es := c.arrKey(t)
+				c.set(st, k, tStore(c.get(st, k, ks), r, c.zeroArr(es)))
+				fr.setVal(i, scalar(r, i.Type()))
+				break
+			}
+		}
 		c.storeObj(st, r, t, c.zeroVal(t))
 		fr.setVal(i, scalar(r, i.Type()))
 	case *ssa.Store:
